@@ -680,7 +680,12 @@ func (fr *Frame) applyContract(i *ssa.Call, callee *ssa.Function, c *Contract, a
 		x.contractDepth = map[*ssa.Function]int{}
 	}
 	for _, cl := range c.clauses("ensures") {
-		if useOnly != nil && cl.Label != "" && !useOnly[cl.Label] {
+		if strings.HasPrefix(cl.Label, "x-") {
+			// an "extended" postcondition (expensive to unfold): only for callers that ask for it by name
+			if !useOnly[cl.Label] {
+				continue
+			}
+		} else if useOnly != nil && cl.Label != "" && !useOnly[cl.Label] && restricts(useOnly) {
 			continue // the caller declared which labelled postconditions it relies on
 		}
 		if !check && x.contractDepth[callee] >= 2 {
@@ -1043,6 +1048,17 @@ func derivedFromParam(v ssa.Value, steps int) bool {
 			v = src
 		default:
 			return false
+		}
+	}
+	return false
+}
+
+// restricts: a `use Callee: ...` list narrows the ordinary postconditions only if it names one of them
+// (a list of extended x- labels alone adds those and keeps all the ordinary ones).
+func restricts(use map[string]bool) bool {
+	for l := range use {
+		if !strings.HasPrefix(l, "x-") {
+			return true
 		}
 	}
 	return false
